@@ -37,6 +37,7 @@ class Runtime:
         self.suspend = suspend
         self.foreign_ctx = 0
         self.type_calls = 0
+        self.arg_refs = []  # argument dictionaries handed to resolvers (consumed after the response)
         self.default_calls = []  # paths at which a custom default resolver was called
         self.default_type_calls = 0
         self.engine_cfg = {}
@@ -107,6 +108,15 @@ def _scramble(v):
         v.append("__consumed__")
 
 
+def consume_args(rt):
+    """The application keeps the argument dictionaries it was given and consumes (mutates) them after
+    the response was produced: whatever a request received belongs to that request, so this can only
+    show up if the engine hands the same coerced objects (literals, variable defaults) to later requests."""
+    refs, rt.arg_refs = rt.arg_refs, []
+    for a in refs:
+        _scramble(a)
+
+
 def make_resolver(coord, bundle=None):
     async def actor(parent, args, ctx, info):
         rt = _rt_of(ctx)
@@ -121,7 +131,12 @@ def make_resolver(coord, bundle=None):
                          (info.parent_type.name, info.field_name)))
         if isinstance(args, dict) and rt.scramble_args:
             _scramble(args)  # the argument dictionary belongs to this call: a resolver may consume it
-        rt.seen_vars.append(info.variable_values)
+        elif isinstance(args, dict):
+            rt.arg_refs.append(args)  # consumed once the request is over (see consume_args)
+        try:
+            rt.seen_vars.append(copy.deepcopy(info.variable_values))  # a snapshot: the values may be consumed later
+        except Exception:  # noqa: BLE001
+            rt.seen_vars.append(info.variable_values)
         rt.seen_roots.append((path, info.root_value))
         if rt.suspend:
             await loop.point((rt.rid,) + path)
@@ -409,6 +424,11 @@ async def cook(schema, name, cfg=None, sdl=None, pre=None, **extra):
             return json.loads(text)
         kw.setdefault("json_loader", counting_json_loader)
     text = sdl if sdl is not None else print_sdl(schema)
+    if cfg.get("sdl_spell") and isinstance(text, str):
+        # the same definitions written with other ignored tokens / optional syntax
+        from simv.gen.sdl_spelling import respell
+        from simv.tape import Tape
+        text = respell(text, Tape(cfg["sdl_spell"]).sub("spell"))
     tmp = None
     if cfg.get("sdl_file") and isinstance(text, str):
         import os
